@@ -277,16 +277,18 @@ def spec_info(spec):
     return pipes
 
 
-def classify(clause, profile, spec, diff):
+def classify(clause, profile, spec, diff, s1=None):
     tbl, col, lab, x, y = diff
     sig = {"clause": clause, "table": tbl, "column": col.split("<->")[0].split("(")[0]}
     if tbl == "res_pipe":
-        kw = spec_info(spec).get(lab, {})
-        sig["multi_section"] = kw.get("sections", 1) > 1
+        n = spec_info(spec).get(lab, {}).get("sections", 1)
+        if s1 is not None:      # the same pipe in the other description (absent there if it was split into pieces)
+            n = max(n, spec_info(s1).get(lab, {}).get("sections", 1))
+        sig["multi_section"] = n > 1
     return sig
 
 
-def rewrites_for(ctx, profile, spec, rng, reverse_all=False):
+def rewrites_for(ctx, profile, spec, rng, reverse_all=False, bidir=False):
     out = []
     pos = rw.reversible_ops(spec)
     if pos:
@@ -295,7 +297,7 @@ def rewrites_for(ctx, profile, spec, rng, reverse_all=False):
         if reverse_all or rng.random() < 0.3:
             out.append(("reverse_branch", rw.reverse(spec, pos), "all"))
     multi = any(fn == PIPE and kw.get("sections", 1) > 1 for fn, kw in spec["ops"])
-    if profile != "gas" and multi:
+    if profile != "gas" and multi and not bidir:
         # liquids at uniform temperature: the hydraulic results must agree; temperatures of a cooling pipe are a
         # discretisation and are not claimed to be section-independent
         out.append(("sections_telescope", rw.one_section(spec), "hyd" if profile == "heat" else "all"))
@@ -315,6 +317,12 @@ def rewrites_for(ctx, profile, spec, rng, reverse_all=False):
     return out
 
 
+def compare_specs(spec, s1, r0, r1, ex):
+    sec = lambda sp: {kw["index"]: kw.get("sections", 1) for fn, kw in sp["ops"] if fn == PIPE}   # noqa: E731
+    return rw.compare(r0, r1, ex, atol=ATOL, tol_m=TIGHT["tol_m"], gas=spec["fluid"] != "water",
+                      sections0=sec(spec), sections1=sec(s1))
+
+
 def lift_direction_differs(r0, r1):
     for t in ("res_pump", "res_compressor"):
         if t in r0 and t in r1:
@@ -327,25 +335,34 @@ def lift_direction_differs(r0, r1):
     return False
 
 
+# columns fixed by the hydraulic stage of a sequential run (v, vdot use the density at the final temperatures)
 HYD_ONLY = ("p_bar", "p_from_bar", "p_to_bar", "mdot_from_kg_per_s", "mdot_to_kg_per_s", "mdot_kg_per_s",
-            "mdot_flow_kg_per_s")
+            "mdot_flow_kg_per_s", "reynolds", "lambda", "dp_friction_loss_bar", "dp_friction_loss_bar_mean_consistency",
+            "deltap_bar")
 
 
-def monitor_net(ctx, profile, name, spec, rng, counters, reverse_all=False):
-    kw = dict(TIGHT, mode="sequential", tol_T=1e-9) if profile == "heat" else dict(TIGHT, mode="hydraulics")
+def monitor_net(ctx, profile, name, spec, rng, counters, reverse_all=False, bidir=None):
+    if profile == "heat":
+        # sequential: hydraulics at the start temperatures, then heat; bidirectional: coupled (density and viscosity
+        # at the calculated temperatures enter the hydraulics)
+        bidir = (rng.random() < 0.4) if bidir is None else bidir
+        kw = dict(TIGHT, mode="bidirectional" if bidir else "sequential", tol_T=1e-9)
+    else:
+        bidir = False
+        kw = dict(TIGHT, mode="hydraulics")
     st0, r0 = run_spec(spec, **kw)
-    ctx.count("base_%s_%s" % (profile, st0))
+    ctx.count("base_%s%s_%s" % (profile, "_bidirectional" if bidir else "", st0))
     if st0 != "ok":
         return
     d = gen.describe(spec)
-    for clause, (s1, ex), scope in rewrites_for(ctx, profile, spec, rng, reverse_all):
+    for clause, (s1, ex), scope in rewrites_for(ctx, profile, spec, rng, reverse_all, bidir):
         st1, r1 = run_spec(s1, **kw)
         ctx.count("%s_%s" % (clause, st1))
         ok = st1 == "ok"
         nontrivial = ok and rw.finite(r1) > 0
-        ctx.case({"net": name, "profile": profile, "clause": clause, "describe": d,
+        ctx.case({"net": name, "profile": profile, "mode": kw["mode"], "clause": clause, "describe": d,
                   "expect": {k: (sorted(map(str, v)) if isinstance(v, set) else str(v)[:200]) for k, v in ex.items()}},
-                 nontrivial, key="%s:%s:%s" % (clause, gen.spec_key(spec)[:20000], gen.spec_key(s1)[:20000]))
+                 nontrivial, key="%s:%s:%s:%s" % (clause, kw["mode"], gen.spec_key(spec)[:20000], gen.spec_key(s1)[:20000]))
         if not ok:
             if st1 != "PipeflowNotConverged":
                 ctx.violation({"clause": clause, "exception": st1},
@@ -353,7 +370,7 @@ def monitor_net(ctx, profile, name, spec, rng, counters, reverse_all=False):
                               {"spec": spec, "rewritten": s1, "options": kw})
             continue
         counters["pairs"] += 1
-        diffs = rw.compare(r0, r1, ex, atol=ATOL)
+        diffs = compare_specs(spec, s1, r0, r1, ex)
         if scope == "hyd":
             diffs = [x for x in diffs if x[1].split("<->")[0].split("(")[0] in HYD_ONLY]
         if diffs and lift_direction_differs(r0, r1):
@@ -364,7 +381,7 @@ def monitor_net(ctx, profile, name, spec, rng, counters, reverse_all=False):
             continue
         seen = set()
         for df in diffs:
-            sig = classify(clause, profile, spec, df)
+            sig = classify(clause, profile, spec, df, s1)
             k = json.dumps(sig, sort_keys=True)
             if k in seen:
                 continue
@@ -437,7 +454,7 @@ def run(ctx):
     counters = {"pairs": 0}
     for profile, name, spec in corpus():
         for rep in range(2):
-            monitor_net(ctx, profile, name, spec, rng, counters, reverse_all=(rep == 0))
+            monitor_net(ctx, profile, name, spec, rng, counters, reverse_all=(rep == 0), bidir=(rep == 1))
     # the nets on which the model and the code disagree are the first candidates of the search
     for s, _ in bad_pipe[:5] + bad_load[:5]:
         s2 = json.loads(json.dumps(s))
@@ -472,7 +489,7 @@ def replay(ctx, path):
             ctx.violation({"clause": rp.get("clause"), "exception": st1}, "rewritten description fails: %s" % st1, rp)
         return
     ex = rw.expect_from_json(rp.get("expect", {}))
-    diffs = rw.compare(r0, r1, ex, atol=ATOL)
+    diffs = compare_specs(rp["spec"], rp["rewritten"], r0, r1, ex)
     if rp.get("scope") == "hyd":
         diffs = [x for x in diffs if x[1].split("<->")[0].split("(")[0] in HYD_ONLY]
     for d in diffs[:20]:
@@ -484,6 +501,6 @@ def replay(ctx, path):
     if not diffs:
         print("replay: the two descriptions agree on the current tree")
     for d in diffs:
-        sig = classify(rp.get("clause"), None, rp["spec"], d)
+        sig = classify(rp.get("clause"), None, rp["spec"], d, rp["rewritten"])
         if ctx.violation(sig, "%s: %s.%s of row %s: %r vs %r" % ((rp.get("clause"),) + tuple(d)), rp) == "violation":
             break
